@@ -352,53 +352,64 @@ def excerpt(b, side, k, n=6):
     return " ".join(b.tok(t[0])[1] for t in side[max(0, k - n):k]) + "  >>>  " + " ".join(b.tok(t[0])[1] for t in side[k:k + n])
 
 
+def predict_stuck(I, O):
+    """Python mirror of the alignment machine, used ONLY to choose which construct class to remove next; the verdict
+    on the normalized record is TLC's (FormatRel.tla)."""
+    opt = lambda s, k: s[k][0] == 1 and k + 1 < len(s) and s[k + 1][0] in (2, 3, 4, 5)
+    i = j = 0
+    while True:
+        if i < len(I) and j < len(O) and I[i][0] == O[j][0]:
+            i += 1; j += 1
+        elif i < len(I) and opt(I, i):
+            i += 1
+        elif j < len(O) and opt(O, j):
+            j += 1
+        elif i == len(I) and j == len(O):
+            return None
+        else:
+            return i, j
+
+
 def tokens_law(ctx, owner, stuck):
     """stuck: {record id: verdict}; owner: {record id: batch}. Returns {record id: state with classes / residual}"""
     state = {}
+    todo = []
     for rid, v in stuck.items():
         b = owner[rid]
         r, d = b.recs[rid], b.diag[rid]
         I = list(zip(r["I"], side_tags(len(r["I"]), d.get("iu"), d.get("im"), d.get("iac"))))
         O = list(zip(r["O"], side_tags(len(r["O"]), d.get("ou"), d.get("om"), d.get("oac"))))
-        state[rid] = dict(I=I, O=O, at=(v["i"] - 1, v["j"] - 1), classes=[], done=False, first=None)
-    for rnd in range(8):
-        todo = []
-        for rid, s in state.items():
-            if s["done"]:
-                continue
-            b = owner[rid]
-            i, j = s["at"]
-            if s["first"] is None:
-                s["first"] = dict(i=i, j=j, input=excerpt(b, s["I"], i), output=excerpt(b, s["O"], j))
-            e = explain_tokens(b, s["I"], s["O"], i, j)
+        i, j = v["i"] - 1, v["j"] - 1
+        s = state[rid] = dict(classes=[], residual=None, first=dict(i=i, j=j, input=excerpt(b, I, i), output=excerpt(b, O, j)))
+        kind = lambda side, k: b.tok(side[k][0])[0] if k < len(side) else "EOF"
+        at = (i, j)
+        for rnd in range(12):
+            e = explain_tokens(b, I, O, *at)
             if e is None:
-                s["done"] = True
-                kind = lambda side, k: b.tok(side[k][0])[0] if k < len(side) else "EOF"
-                s["residual"] = dict(i=i, j=j, input=excerpt(b, s["I"], i), output=excerpt(b, s["O"], j),
-                                     kinds=kind(s["I"], i) + "->" + kind(s["O"], j))
-                continue
-            cls, s["I"], s["O"] = e
+                break
+            cls, I, O = e
             if cls not in s["classes"]:
                 s["classes"].append(cls)
+            at = predict_stuck(I, O)
+            if at is None:
+                break
+        if at is not None:
+            s["residual"] = dict(i=at[0], j=at[1], input=excerpt(b, I, at[0]), output=excerpt(b, O, at[1]),
+                                 kinds=kind(I, at[0]) + "->" + kind(O, at[1]))
+        if s["classes"]:
+            s["I"], s["O"] = [t[0] for t in I], [t[0] for t in O]
             todo.append(rid)
-        if not todo:
-            break
-        path = os.path.join(ctx.work, f"norm{rnd}.rec")
+    if todo:
+        path = os.path.join(ctx.work, "normalized.rec")
         with open(path, "w") as f:
             for rid in todo:
-                r = dict(owner[rid].recs[rid]); s = state[rid]
-                r["I"] = [t[0] for t in s["I"]]; r["O"] = [t[0] for t in s["O"]]
+                r = dict(owner[rid].recs[rid]); r["I"] = state[rid].pop("I"); r["O"] = state[rid].pop("O")
                 f.write(json.dumps(r) + "\n")
-        vs = validate(ctx, path, f"after removing named construct classes, round {rnd}")
+        vs = validate(ctx, path, "rejected alignments after removing the named construct classes")
         for rid in todo:
-            v = vs[rid]
-            if v["tokens"]:
-                state[rid]["done"] = True; state[rid]["residual"] = None
-            else:
-                state[rid]["at"] = (v["i"] - 1, v["j"] - 1)
-    for s in state.values():
-        if not s["done"]:
-            s["residual"] = dict(kinds="unresolved-after-8-rounds", input="", output="", i=s["at"][0], j=s["at"][1])
+            s, v = state[rid], vs[rid]
+            if v["tokens"] != (s["residual"] is None):
+                raise ToolError(f"FormatRel and the Python predictor disagree on normalized record {rid}: {v} vs {s['residual']}")
     return state
 
 
@@ -563,7 +574,7 @@ def run(ctx):
     if ctx.quick:
         sample = sorted(rnd.sample(files, 250))
         widths = [20, 90]
-        mut_origins, per_file, mut_widths = 70, 8, [20, 90]
+        mut_origins, per_file, mut_widths = 60, 6, [20, 90]
     else:
         sample = files
         widths = [1, 20, 40, 90, 200]
